@@ -10,7 +10,7 @@ from hypothesis import strategies as st
 
 from .. import arr as A
 from .. import unit as U
-from ..core import sstr, Failure, drive
+from ..core import peek, sstr, Failure, drive
 from ..gen import models as M
 from ..ref import commands as R
 
@@ -158,8 +158,8 @@ def check_model(model, rec):
         if run_exc is None and not fails and model.get("extra_on") is not None:
             try:
                 lib = prog.command_library
-                before = {k: (id(c._result), numpy.ma.getdata(c._result).tobytes(), numpy.ma.getmaskarray(c._result).tobytes())
-                          for k, c in prog.commands.items() if isinstance(c._result, numpy.ndarray)}
+                before = {k: (id(peek(c)), numpy.ma.getdata(peek(c)).tobytes(), numpy.ma.getmaskarray(peek(c)).tobytes())
+                          for k, c in prog.commands.items() if isinstance(peek(c), numpy.ndarray)}
                 targets = [n["name"] for n in model["nodes"] if isinstance(ref[n["name"]], list)][:4]
                 for t in targets:
                     prog.add_command(lib["Copy"], "Later_" + t, {"InFieldName": t})
@@ -170,7 +170,7 @@ def check_model(model, rec):
                     fails.extend(fs)
                 for k, (ident, data, mask) in before.items():
                     c = prog.commands[k]
-                    if id(c._result) != ident or numpy.ma.getdata(c._result).tobytes() != data or numpy.ma.getmaskarray(c._result).tobytes() != mask:
+                    if id(peek(c)) != ident or numpy.ma.getdata(peek(c)).tobytes() != data or numpy.ma.getmaskarray(peek(c)).tobytes() != mask:
                         fails.append(Failure("%s|changed_by_second_run" % type(c).__name__, "%s changed when the program was extended and run again\n%s" % (k, text)))
                         break
             except Exception as exc:
